@@ -48,6 +48,10 @@ def shards(tier, seed):
 	out.append(dict(name='long', kind='long', n=6 if tier == 'quick' else 40))
 	out.append(dict(name='asan-classes', kind='classes', n=1200 if tier == 'quick' else 8000, sub=1000, sanitizer='asan'))
 	out.append(dict(name='asan-exh', kind='exh', part=0, nparts=40 if tier == 'quick' else 8, maxlen=6, alpha='ACGTN', prefixes=['A', 'AT', 'CG'], ks=[1, 2, 3], sanitizer='asan'))
+	for s_ in out:
+		if s_.get('kind') in ['classes'] and not s_.get('sanitizer'):
+			s_['contracts'] = ['C01']
+	out.append(dict(name='suite-contracts', kind='suite-contracts', which=['C01'], tests=['tests/test_kmers.py', 'tests/sigs/test_calc.py']))
 	return out
 
 
